@@ -171,6 +171,11 @@ def make_options(o):
         opts["tol_residual"] = o["tol"]
         opts["tol_increment"] = o["tol"]
         opts["tol_distance"] = o["tol"]
+    for name, val in (o.get("tols") or {}).items():  # independent tolerances override the common one
+        if val is not None:
+            opts["tol_" + name] = val
+        else:
+            opts.pop("tol_" + name, None)
     if o.get("L") is not None:
         opts["L"] = o["L"]
     if o["method"] == "bregman_adaptive":
@@ -238,6 +243,13 @@ def watch_mobility(w1, tags, key="degenerate_mobility", limit=1e12):
             fw = np.asarray(out[0], dtype=float)
             if fw.size and (not np.all(np.isfinite(fw)) or np.abs(fw).max() > limit):
                 tags[key] = True
+            # scale-free companion: largest ratio of face weights seen in one evaluation (a face whose
+            # flux is rounding noise next to the others has weight 1/noise or 1/cut-off)
+            if fw.size:
+                with np.errstate(all="ignore"):
+                    lo, hi = np.abs(fw).min(), np.abs(fw).max()
+                    ratio = float(hi / lo) if lo > 0 and np.isfinite(hi) else 1e300
+                tags["mobility_contrast"] = max(tags.get("mobility_contrast", 1.0), ratio)
         except Exception:  # noqa
             pass
         return out
